@@ -61,10 +61,29 @@ def apply_pass(name, tree):
         return T.isolate_function_calls(tree)
     if name == "ifexpr":
         return T.expand_IfThenElse(tree)
-    t = T.eliminate_self_dependencies(tree)
-    t = T.isolate_function_arguments(t)
-    t = T.isolate_function_calls(t)
-    return T.expand_IfThenElse(t)
+    t = tree
+    for fn in generator_pass_order():
+        t = getattr(T, fn)(t)
+    return t
+
+
+_ORDER = None
+
+
+def generator_pass_order():
+    """The order in which the Fortran generator applies the passes, read off
+    its source so that the check follows the repository."""
+    global _ORDER
+    if _ORDER is None:
+        import inspect
+        import re
+        import dagrt.codegen.fortran as F
+        src = inspect.getsource(F.CodeGenerator.__call__)
+        found = re.findall(r"ast = (eliminate_self_dependencies|isolate_function_arguments|"
+                           r"isolate_function_calls|expand_IfThenElse)\(ast\)", src)
+        _ORDER = found if len(found) == 4 else ["eliminate_self_dependencies", "isolate_function_arguments",
+                                                "isolate_function_calls", "expand_IfThenElse"]
+    return _ORDER
 
 
 # {{{ hand-built trees
@@ -270,11 +289,21 @@ def features(tree):
                 continue
             if call_in_if_branch(x):
                 f.add("call-in-lazily-evaluated-position")
+                f.add("call-in-conditional-expression-branch")
+            if call_in_if_branch(x, shortcircuit=True):
+                f.add("call-in-lazily-evaluated-position")
+                f.add("call-in-short-circuit-operand")
             if nested_if(x):
                 f.add("nested-conditional-expression")
             if nested_call(x):
                 f.add("nested-call")
     return f
+
+
+def lazy_key(feats):
+    if "call-in-conditional-expression-branch" in feats:
+        return "conditional-expression-branch-operand-hoisted"
+    return "short-circuit-operand-hoisted"
 
 
 def _kids(e):
@@ -288,18 +317,19 @@ def _kids(e):
     return [x for x in e[1:] if isinstance(x, list)]
 
 
-def call_in_if_branch(e, inside=False):
+def call_in_if_branch(e, inside=False, shortcircuit=False):
     """A call in a lazily evaluated position: a branch of a conditional
-    expression or a non-first operand of a short-circuit and/or."""
+    expression (shortcircuit=False) or a non-first operand of a short-circuit
+    and/or (shortcircuit=True)."""
     if e[0] == "call" and inside:
         return True
-    if e[0] == "if":
+    if e[0] == "if" and not shortcircuit:
         return (call_in_if_branch(e[1], inside) or call_in_if_branch(e[2], True)
                 or call_in_if_branch(e[3], True))
-    if e[0] in ("and", "or"):
-        return (call_in_if_branch(e[1], inside)
-                or any(call_in_if_branch(x, True) for x in e[2:]))
-    return any(call_in_if_branch(x, inside) for x in _kids(e))
+    if e[0] in ("and", "or") and shortcircuit:
+        return (call_in_if_branch(e[1], inside, True)
+                or any(call_in_if_branch(x, True, True) for x in e[2:]))
+    return any(call_in_if_branch(x, inside, shortcircuit) for x in _kids(e))
 
 
 def nested_if(e, inside=False):
@@ -387,7 +417,7 @@ def check_tree(tree, valuations, rec, wit, only_pass=None):
                 mech = f"{pname}:transformed-program-fails-where-original-does-not-on-{key}"
                 if "call-in-lazily-evaluated-position" in feats:
                     # something hoisted out of a branch that is not taken is evaluated anyway
-                    mech = f"{pname}:lazily-evaluated-operand-hoisted"
+                    mech = f"{pname}:" + lazy_key(feats)
                 rec.violation(mech,
                               f"{type(ex).__name__}: {ex}\n{s_out}", dict(w, valuation=vi))
                 bad = True
@@ -420,7 +450,7 @@ def check_tree(tree, valuations, rec, wit, only_pass=None):
                 key = "+".join(sorted(feats & {"call-in-lazily-evaluated-position"})) or "plain"
                 mech = f"{pname}:external-calls-changed-on-{key}"
                 if key != "plain" and not missing:
-                    mech = f"{pname}:lazily-evaluated-operand-hoisted"
+                    mech = f"{pname}:" + lazy_key(feats)
                 rec.violation(mech,
                               f"extra calls {extra[:3]}, missing calls {missing[:3]}\ninput:\n{s_in}output:\n{s_out}",
                               dict(w, valuation=vi))
